@@ -199,7 +199,9 @@ CONTRACTS = [
     # the prefix of do_request up to the construction of urllib.request.Request: request assembly
     Contract(M, '_HttpConnImpl.do_request', name='_HttpConnImpl.do_request/assembly', prop=PROP, spec_globals=G,
              level='top',
-             body_slice={'stop_before': 'request = urllib.request.Request(', 'result': '(url, method, req_data, headers)'},
+             body_slice={'stop_before': 'urllib.request.Request(',
+                         'result_call': {'func': 'urllib.request.Request', 'pick': ['url', 'method', 'data', 'headers'],
+                                         'signature': ['url', 'data', 'headers', 'origin_req_host', 'unverifiable', 'method']}},
              params={'self': T.obj('ak.conn_http:_HttpConnImpl', address=T.str, _cur_req_id=T.none),
                      'adapters': T.one_of(T.list(), T.list(PREFIX()), T.list(BAUTH()), T.list(PREFIX(), TAUTH()),
                                           T.list(PREFIX(), PREFIX()), T.list(CAUTH(), PREFIX())),
